@@ -2032,6 +2032,7 @@ def lib_call_method(fr: Frame, bm: BoundMethod, args, kwargs, node):
         if name in ("is_blunt", "is_unknown"):
             return False
         if name == "catalyse":
+            I.path.effects.append(("catalyse", t, list(args), dict(kwargs)))
             return Term("fragments", *[_t(a) for a in args])
     if bm.kind == "features" and name == "append":
         t.added_features.append(args[0])
